@@ -168,6 +168,17 @@ def rule_d(model, rep):
             rep.check(guard is not None, R, s, f"last increase `{last_txt}`; bound check after it: {'statement %d' % guard if guard is not None else 'none'}",
                       "after the generator last raises the value it re-checks the configured maximum (max_desired_rounds / max_rounds)",
                       witness="an even bsdi_crypt max_rounds (e.g. 5000) with default at the limit: the fresh hash has max+1 rounds and needs_update() is True on every login")
+            # the step back: taken exactly when the value exceeds the maximum, and only if the result is still admissible
+            if guard is not None and isinstance(g.body[guard], ast.If):
+                gi = g.body[guard]
+                dec = [x for x in gi.body if isinstance(x, ast.AugAssign) and ast.unparse(x.target) == "rounds" and isinstance(x.op, ast.Sub)]
+                cmps = [c for c in ast.walk(gi.test) if isinstance(c, ast.Compare) and len(c.ops) == 1]
+                upper = [c for c in cmps if ast.unparse(c.left) == "rounds"]
+                lower = [c for c in cmps if dec and ast.unparse(c.left) == f"rounds - {ast.unparse(dec[0].value)}"]
+                ok = len(dec) == 1 and len(upper) == 1 and isinstance(upper[0].ops[0], ast.Gt) and len(lower) == 1 and isinstance(lower[0].ops[0], ast.GtE) \
+                    and ast.unparse(lower[0].comparators[0]) in ("max(cls.min_desired_rounds or 0, cls.min_rounds)", "max(cls.min_rounds, cls.min_desired_rounds or 0)")
+                rep.check(ok, R, s + " step-back", ast.unparse(gi.test), "the generator steps back iff the value exceeds the maximum (>) and the stepped value is still >= the effective minimum (the minimum itself is admissible)",
+                          witness="min_rounds=4999, max_rounds=5000: the only admissible odd value is the minimum; with `>` the generator keeps 5001 and every fresh hash needs an update")
     rep.minimum(R, 1)
 
 
